@@ -146,6 +146,7 @@ def gen_case(rng, tier, n=None, blocks=None, merge=None):
         "transfer": [rng.choice(["shared", "copied"]) for _ in range(nb)],
         "merge": merge if merge is not None else _gen_merge(rng, nb),
         "lazy": lazy,
+        "xform": rng.choice([None, None, None, None, "fortran", "strided", "float32"]),
         "sched": gen_sched(rng),
     }
 
@@ -254,6 +255,8 @@ def run_case(case, replay=None):
 
     rec = SimRec(replay)
     X = A(case["X"])
+    if case.get("xform") == "float32":
+        X = X.astype(np.float32).astype(float)  # values exactly representable in float32
     n_rows, d = X.shape
     s = float(np.abs(X).max()) or 1.0
     g = case["gmm"]
@@ -282,6 +285,15 @@ def run_case(case, replay=None):
         inputs = []
         for b, be in zip(blocks, case["backends"]):
             xb = X[b].copy() if len(b) else np.zeros((0, d))
+            xf = case.get("xform")
+            if xf == "fortran":
+                xb = np.asfortranarray(xb)
+            elif xf == "strided" and len(b):
+                big = np.zeros((xb.shape[0] * 2, d + 1))
+                big[::2, :-1] = xb
+                xb = big[::2, :-1]
+            if case.get("xform") == "float32":
+                xb = xb.astype(np.float32)
             if be["type"] == "da":
                 xin = da.from_array(xb, chunks=(tuple(be["chunks"]), (d,)))
             elif be["type"] == "np1d":
